@@ -66,16 +66,6 @@ func forEachColLit(p pred, f func(col int, l lit) lit) {
 			for i := range x.vs {
 				x.vs[i] = f(x.col, x.vs[i])
 			}
-		case *pTupleIn:
-			for _, r := range x.rows {
-				for i := range r {
-					r[i] = f(x.cols[i], r[i])
-				}
-			}
-		case *pTupleCmp:
-			for i := range x.vs {
-				x.vs[i] = f(x.cols[i], x.vs[i])
-			}
 		}
 	})
 }
@@ -123,7 +113,10 @@ func sigInAllDropped(t *tinfo, p pred) bool {
 		return false
 	}
 	for _, v := range in.vs {
-		if v.inIntRange(t.sh.cols[in.col].k) {
+		// the fast path keeps an element that is an integer value of the column's type; a
+		// floating point literal is tested with float64(int(v)) == v first, which also drops
+		// floats beyond the int64 range (1e19 for a BIGINT UNSIGNED column)
+		if v.inIntRange(t.sh.cols[in.col].k) && !(v.lk == lFlt && !v.inIntRange(kBig)) {
 			return false
 		}
 	}
@@ -145,23 +138,6 @@ func mixedLists(sh *shape, p pred, f func(in *pIn)) {
 			if v.r != nil && !v.integral() {
 				f(in)
 				return
-			}
-		}
-	})
-}
-
-// tupleLossyLits calls f for every numeric literal that a row-valued IN compares with an
-// integer column and that is not a value of that column's type (non-integral or out of range):
-// HashInTuple converts it to the column's type, i.e. rounds / clamps it.
-func tupleLossyLits(sh *shape, p pred, f func(k kind, l *lit)) {
-	walk(p, func(n pred) {
-		if x, ok := n.(*pTupleIn); ok {
-			for _, r := range x.rows {
-				for i := range r {
-					if k := sh.cols[x.cols[i]].k; k.isInt() && r[i].r != nil && !r[i].inIntRange(k) {
-						f(k, &r[i])
-					}
-				}
 			}
 		}
 	})
@@ -219,20 +195,6 @@ func isDecOutOfRange(t *tinfo) func(col int, l lit) bool {
 }
 
 // ---------------------------------------------------------------------------------------------
-// C03-decimal-bound-rounded-to-column-scale
-
-var hundred = big.NewRat(100, 1)
-
-// isFinerThanScale: a numeric literal with more than two fractional digits compared with an
-// indexed DECIMAL(10,2) column.
-func isFinerThanScale(t *tinfo) func(col int, l lit) bool {
-	w := t.sh.indexedWeight()
-	return func(col int, l lit) bool {
-		return t.sh.cols[col].k == kDec && w[col] > 0 && l.r != nil && !new(big.Rat).Mul(l.r, hundred).IsInt()
-	}
-}
-
-// ---------------------------------------------------------------------------------------------
 // C03-noteq-fraction-on-decimal-or-double
 
 // negatedFracLits calls f for every non-integral numeric literal that is compared for
@@ -241,7 +203,8 @@ func isFinerThanScale(t *tinfo) func(col int, l lit) bool {
 func negatedFracLits(sh *shape, p pred, f func(l *lit)) {
 	var rec func(n pred, underNot bool)
 	visit := func(col int, l *lit) {
-		if k := sh.cols[col].k; (k == kDec || k == kDbl) && l.r != nil && !l.r.IsInt() {
+		k := sh.cols[col].k
+		if (k == kDec || k == kDbl) && l.r != nil && !l.r.IsInt() {
 			f(l)
 		}
 	}
@@ -274,8 +237,7 @@ func negatedFracLits(sh *shape, p pred, f func(l *lit)) {
 // C03-int64-uint64-compared-as-float
 
 var (
-	two53    = new(big.Rat).SetInt(new(big.Int).Lsh(big.NewInt(1), 53))
-	maxInt64 = new(big.Rat).SetInt64(9223372036854775807)
+	two53 = new(big.Rat).SetInt(new(big.Int).Lsh(big.NewInt(1), 53))
 )
 
 func bigMagnitude(l lit) bool { return l.r != nil && new(big.Rat).Abs(l.r).Cmp(two53) > 0 }
@@ -290,7 +252,7 @@ func storesBig(pool []lit) bool {
 }
 
 // mixedSignLits calls f for every integer literal above 2^53 in magnitude that a plain
-// comparison (=, <>, <, .., BETWEEN, row comparison, row IN; scalar IN lists are covered by floatLists)
+// comparison (=, <>, <, .., BETWEEN; IN lists are covered by floatLists)
 // relates to a 64-bit integer column of the other signedness (BIGINT UNSIGNED with a literal
 // that fits int64; BIGINT with a literal above the int64 range) while the column stores a
 // value above 2^53 in magnitude.
@@ -311,16 +273,6 @@ func mixedSignLits(t *tinfo, p pred, f func(k kind, l *lit)) {
 		case *pBetween:
 			visit(x.col, &x.lo)
 			visit(x.col, &x.hi)
-		case *pTupleCmp:
-			for i := range x.vs {
-				visit(x.cols[i], &x.vs[i])
-			}
-		case *pTupleIn: // the index path rewrites it to (a = x AND b = y) OR ..
-			for _, r := range x.rows {
-				for i := range r {
-					visit(x.cols[i], &r[i])
-				}
-			}
 		}
 	})
 }
@@ -361,51 +313,21 @@ func ciClash(pool []lit, l lit) bool {
 	return false
 }
 
-// ciNodes calls f for every literal of an IN, <=> or tuple comparison over a ci column; for
-// tuple inequalities ineq is true.
-func ciNodes(sh *shape, p pred, f func(col int, l *lit, ineq bool)) {
+// ciNodes calls f for every string literal that an IN list or a <=> comparison relates to a
+// column with a case-insensitive collation.
+func ciNodes(sh *shape, p pred, f func(col int, l *lit)) {
 	walk(p, func(n pred) {
 		switch x := n.(type) {
 		case *pCmp:
-			if x.op == "<=>" && ciKind(sh.cols[x.col].k) {
-				f(x.col, &x.v, false)
+			if x.op == "<=>" && ciKind(sh.cols[x.col].k) && x.v.lk == lStr {
+				f(x.col, &x.v)
 			}
 		case *pIn:
 			if ciKind(sh.cols[x.col].k) {
 				for i := range x.vs {
-					f(x.col, &x.vs[i], false)
-				}
-			}
-		case *pTupleIn:
-			for _, r := range x.rows {
-				for i := range r {
-					if ciKind(sh.cols[x.cols[i]].k) {
-						f(x.cols[i], &r[i], false)
+					if x.vs[i].lk == lStr {
+						f(x.col, &x.vs[i])
 					}
-				}
-			}
-		case *pTupleCmp:
-			for i := range x.vs {
-				if ciKind(sh.cols[x.cols[i]].k) {
-					f(x.cols[i], &x.vs[i], x.op != "=")
-				}
-			}
-		}
-	})
-}
-
-// ---------------------------------------------------------------------------------------------
-// C03-tuple-in-null-component
-
-// nullTupleIns calls f for every row-valued IN whose left row contains a column that stores
-// a NULL.
-func nullTupleIns(t *tinfo, p pred, f func(x *pTupleIn)) {
-	walk(p, func(n pred) {
-		if x, ok := n.(*pTupleIn); ok && !x.guard {
-			for _, c := range x.cols {
-				if t.hasNull[c] {
-					f(x)
-					return
 				}
 			}
 		}
@@ -417,17 +339,16 @@ func nullTupleIns(t *tinfo, p pred, f func(x *pTupleIn)) {
 
 const (
 	kfInAllDropped  = "C03-in-all-out-of-range"
-	kfInMixed       = "C03-hashin-lossy-compare-type"
-	kfDecOutOfRange = "C03-decimal-out-of-range-literal-error"
 	kfNotEqFraction = "C03-noteq-fraction-on-decimal-or-double"
-	kfMixedSign     = "C03-int64-uint64-compared-as-float"
+	kfDecOutOfRange = "C03-decimal-out-of-range-literal-error"
 	kfDateTrunc     = "C03-date-range-truncates-datetime-literal"
+	kfInFraction    = "C03-hashin-rounds-fraction"
+	kfBigAsFloat    = "C03-bigint-compared-as-float"
 	kfCIIgnored     = "C03-ci-collation-ignored-in-filter"
-	kfTupleNull     = "C03-tuple-in-null-component"
-	kfDecScale      = "C03-decimal-bound-rounded-to-column-scale"
 )
 
 var findings = []finding{
+	// ------------------------------------------------------------ index side (range construction)
 	{
 		// The whole WHERE clause is `col IN (list)` over an integer column that alone forms an
 		// index and every list element is dropped by the IN fast path (out of the column type's
@@ -450,72 +371,29 @@ var findings = []finding{
 		},
 	},
 	{
-		// HashInTuple (IN evaluated as a filter) converts every list element to ONE compare type
-		// derived from the column and the *first* element only:
-		//  (a) integer column, list starts with an integer literal and contains a later
-		//      non-integral literal: it is rounded to an integer (1.5 -> 2, -2.5 -> -3) and matches;
-		//  (b) 64-bit integer column, first element NULL / float / integer of the other signedness:
-		//      everything is compared as float64, values above 2^53 collide;
-		//  (c) row-valued IN: each component is converted to the column's type (1.5 -> 2,
-		//      -9223372036854775809 -> -9223372036854775808).
-		// The index ranges treat such elements exactly (they match nothing).
-		id: kfInMixed,
+		// `col <> v` (also NOT (col = v), NOT IN) with a non-integral literal v over an indexed
+		// DECIMAL or DOUBLE column: MySQLIndexBuilder.NotEquals applies its "a fractional key can
+		// never equal an integer column" shortcut without checking that the column is an integer
+		// column, builds the range "everything but NULL", and the row holding v is returned (for
+		// DECIMAL(10,2) also the row holding v rounded to two digits, e.g. 1.51 for `d <> 1.505`,
+		// which the filter - comparing at the column's scale - excludes).
+		id: kfNotEqFraction,
 		sig: func(t *tinfo, p pred) bool {
 			hit := false
-			mixedLists(t.sh, p, func(*pIn) { hit = true })
-			floatLists(t, p, func(kind, *pIn) { hit = true })
-			tupleLossyLits(t.sh, p, func(kind, *lit) { hit = true })
+			negatedFracLits(t.sh, p, func(*lit) { hit = true })
 			return hit
 		},
 		outcome: outcome.bothOK,
 		steer: func(t *tinfo, p pred) {
-			tupleLossyLits(t.sh, p, func(k kind, l *lit) {
-				n := new(big.Int).Quo(l.r.Num(), l.r.Denom()) // truncate, then clamp into the column type
-				lo, hi := intRange(k)
-				if n.Cmp(lo) < 0 {
-					n = lo
-				}
-				if n.Cmp(hi) > 0 {
-					n = hi
-				}
+			negatedFracLits(t.sh, p, func(l *lit) {
+				n := new(big.Int).Quo(l.r.Num(), l.r.Denom()) // truncate to an integer
 				*l = numLit(n.String())
-			})
-			floatLists(t, p, func(k kind, in *pIn) {
-				// lead with a literal of the column's own type
-				for i, v := range in.vs {
-					if exactFirst(k, v) && v.integral() {
-						in.vs[0], in.vs[i] = in.vs[i], in.vs[0]
-						return
-					}
-				}
-				_, hi := intRange(k)
-				in.vs = append([]lit{numLit(hi.String())}, in.vs...)
-			})
-			mixedLists(t.sh, p, func(in *pIn) {
-				// a non-integral exact decimal as first element makes the compare type exact
-				for i, v := range in.vs {
-					if v.lk == lDec && !v.integral() {
-						in.vs[0], in.vs[i] = in.vs[i], in.vs[0]
-						return
-					}
-				}
-				for i, v := range in.vs { // only floating point fractions: write them as decimals
-					if v.r != nil && !v.integral() {
-						in.vs[i] = numLit(v.r.FloatString(3))
-					}
-				}
-				for i, v := range in.vs {
-					if v.lk == lDec && !v.integral() {
-						in.vs[0], in.vs[i] = in.vs[i], in.vs[0]
-						return
-					}
-				}
 			})
 		},
 		witness: witness{
-			setup: []string{"CREATE TABLE ti (b TINYINT, KEY kb (b))", "CREATE TABLE tn (b TINYINT)",
-				"INSERT INTO ti VALUES (2), (0), (7)", "INSERT INTO tn VALUES (2), (0), (7)"},
-			where: "b IN (300, 1.5, 0)",
+			setup: []string{"CREATE TABLE ti (d DECIMAL(10,2), KEY kd (d))", "CREATE TABLE tn (d DECIMAL(10,2))",
+				"INSERT INTO ti VALUES (1.50), (2.00)", "INSERT INTO tn VALUES (1.50), (2.00)"},
+			where: "d <> 1.5",
 		},
 	},
 	{
@@ -547,83 +425,6 @@ var findings = []finding{
 		},
 	},
 	{
-		// An indexed DECIMAL(10,2) column compared with a literal that has more than two
-		// fractional digits: the index range bound is the literal *rounded* to the column scale
-		// (there is no floor/ceil adjustment as for integer columns), so `d > -0.001` becomes the
-		// range (-0.00, inf) and loses the row 0.00; `d < 1.504` loses 1.50. (When the comparison
-		// is the whole WHERE clause the literal is rounded before analysis on both paths, which
-		// hides the difference; inside an OR it is not.)
-		id:      kfDecScale,
-		sig:     func(t *tinfo, p pred) bool { return anyLit(p, isFinerThanScale(t)) },
-		outcome: outcome.bothOK,
-		steer: func(t *tinfo, p pred) {
-			in := isFinerThanScale(t)
-			forEachColLit(p, func(col int, l lit) lit {
-				if in(col, l) {
-					return numLit(l.r.FloatString(2))
-				}
-				return l
-			})
-		},
-		witness: witness{
-			setup: []string{"CREATE TABLE ti (d DECIMAL(10,2), KEY kd (d))", "CREATE TABLE tn (d DECIMAL(10,2))",
-				"INSERT INTO ti VALUES (0.00), (1.50), (-1.00)", "INSERT INTO tn VALUES (0.00), (1.50), (-1.00)"},
-			where: "d > -0.001 OR d = NULL",
-		},
-	},
-	{
-		// `col <> v` (also NOT (col = v), NOT IN) with a non-integral literal v over an indexed
-		// DECIMAL or DOUBLE column: MySQLIndexBuilder.NotEquals applies its "a fractional key can
-		// never equal an integer column" shortcut without checking that the column is an integer
-		// column, builds the range "everything but NULL", and the row holding v is returned.
-		id: kfNotEqFraction,
-		sig: func(t *tinfo, p pred) bool {
-			hit := false
-			negatedFracLits(t.sh, p, func(*lit) { hit = true })
-			return hit
-		},
-		outcome: outcome.bothOK,
-		steer: func(t *tinfo, p pred) {
-			negatedFracLits(t.sh, p, func(l *lit) {
-				n := new(big.Int).Quo(l.r.Num(), l.r.Denom()) // truncate to an integer
-				*l = numLit(n.String())
-			})
-		},
-		witness: witness{
-			setup: []string{"CREATE TABLE ti (d DECIMAL(10,2), KEY kd (d))", "CREATE TABLE tn (d DECIMAL(10,2))",
-				"INSERT INTO ti VALUES (1.50), (2.00)", "INSERT INTO tn VALUES (1.50), (2.00)"},
-			where: "d <> 1.5",
-		},
-	},
-	{
-		// A 64-bit integer column compared with an integer literal of the other signedness
-		// (BIGINT UNSIGNED vs. a literal that fits int64, BIGINT vs. a literal above 2^63-1), both
-		// above 2^53 in magnitude: the filter (scan side) compares them as float64, so
-		// 9223372036854775808 = 9223372036854775806 and 9007199254740993 = 9007199254740992 are
-		// TRUE; the index range compares exactly in the column type.
-		id: kfMixedSign,
-		sig: func(t *tinfo, p pred) bool {
-			hit := false
-			mixedSignLits(t, p, func(kind, *lit) { hit = true })
-			return hit
-		},
-		outcome: outcome.bothOK,
-		steer: func(t *tinfo, p pred) {
-			mixedSignLits(t, p, func(k kind, l *lit) {
-				if k == kUBig {
-					*l = numLit("9223372036854775808") // an unsigned literal: compared exactly
-				} else {
-					*l = numLit("9223372036854775807")
-				}
-			})
-		},
-		witness: witness{
-			setup: []string{"CREATE TABLE ti (u BIGINT UNSIGNED, KEY ku (u))", "CREATE TABLE tn (u BIGINT UNSIGNED)",
-				"INSERT INTO ti VALUES (9223372036854775808), (1)", "INSERT INTO tn VALUES (9223372036854775808), (1)"},
-			where: "u = 9223372036854775806",
-		},
-	},
-	{
 		// An indexed DATE column compared with a datetime literal that has a non-zero time of
 		// day: the index range is built from the literal truncated to a date, so
 		// `d < '2020-01-02 12:00:00'` and `d <> '2020-01-02 12:00:00'` lose the row of 2020-01-02
@@ -646,32 +447,106 @@ var findings = []finding{
 			where: "d < '2020-01-02 12:00:00'",
 		},
 	},
+	// ------------------------------------------- scan side (the same predicate evaluated as a filter)
 	{
-		// IN / NOT IN, <=> and row (tuple) comparisons over a VARCHAR column with a
-		// case-insensitive collation: evaluated as a filter (scan side) they compare the strings
-		// binary, ignoring the column collation that =, <, BETWEEN and LIKE honour; the index
-		// ranges honour it. The two paths disagree whenever a stored value and a literal are equal
-		// under the collation but not byte-equal (or, for row inequalities, ordered differently).
-		id: kfCIIgnored,
+		// HashInTuple (a constant IN list evaluated as a filter) converts every list element to
+		// ONE compare type derived from the column and the *first* element only. Integer column,
+		// list starts with an integer literal and contains a later non-integral literal: that
+		// literal is rounded to an integer (1.5 -> 2, -2.5 -> -3) and matches; the index ranges
+		// treat it exactly (it matches nothing). (DESIGN.md F14; same cause as C07's
+		// hashin-first-element-type.)
+		id: kfInFraction,
 		sig: func(t *tinfo, p pred) bool {
 			hit := false
-			ciNodes(t.sh, p, func(col int, l *lit, ineq bool) {
-				hit = hit || (l.lk == lStr && (ineq || ciClash(t.pools[col], *l)))
-			})
+			mixedLists(t.sh, p, func(*pIn) { hit = true })
 			return hit
 		},
 		outcome: outcome.bothOK,
 		steer: func(t *tinfo, p pred) {
-			walk(p, func(n pred) {
-				if x, ok := n.(*pTupleCmp); ok {
-					for _, c := range x.cols {
-						if ciKind(t.sh.cols[c].k) {
-							x.op = "="
-						}
+			mixedLists(t.sh, p, func(in *pIn) {
+				// a non-integral exact decimal as first element makes the compare type exact
+				for i, v := range in.vs {
+					if v.lk == lDec && !v.integral() {
+						in.vs[0], in.vs[i] = in.vs[i], in.vs[0]
+						return
+					}
+				}
+				for i, v := range in.vs { // only floating point fractions: write them as decimals
+					if v.r != nil && !v.integral() {
+						in.vs[i] = numLit(v.r.FloatString(3))
+					}
+				}
+				for i, v := range in.vs {
+					if v.lk == lDec && !v.integral() {
+						in.vs[0], in.vs[i] = in.vs[i], in.vs[0]
+						return
 					}
 				}
 			})
-			ciNodes(t.sh, p, func(col int, l *lit, ineq bool) {
+		},
+		witness: witness{
+			setup: []string{"CREATE TABLE ti (b TINYINT, KEY kb (b))", "CREATE TABLE tn (b TINYINT)",
+				"INSERT INTO ti VALUES (2), (0), (7)", "INSERT INTO tn VALUES (2), (0), (7)"},
+			where: "b IN (300, 1.5, 0)",
+		},
+	},
+	{
+		// A 64-bit integer column that stores a value above 2^53 in magnitude, compared with an
+		// integer literal above 2^53 of the other signedness (BIGINT UNSIGNED vs. a literal that
+		// fits int64, BIGINT vs. a literal above 2^63-1), or by an IN list whose first element is
+		// NULL, a float or an integer of the other signedness: the filter (scan side) compares as
+		// float64, so 9223372036854775808 = 9223372036854775806 is TRUE and
+		// 9223372036854775808 > 9223372036854775807 is FALSE; the index range compares exactly in
+		// the column type.
+		id: kfBigAsFloat,
+		sig: func(t *tinfo, p pred) bool {
+			hit := false
+			mixedSignLits(t, p, func(kind, *lit) { hit = true })
+			floatLists(t, p, func(kind, *pIn) { hit = true })
+			return hit
+		},
+		outcome: outcome.bothOK,
+		steer: func(t *tinfo, p pred) {
+			mixedSignLits(t, p, func(k kind, l *lit) {
+				if k == kUBig {
+					*l = numLit("9223372036854775808") // an unsigned literal: compared exactly
+				} else {
+					*l = numLit("9223372036854775807")
+				}
+			})
+			floatLists(t, p, func(k kind, in *pIn) {
+				// lead with a literal of the column's own type
+				for i, v := range in.vs {
+					if exactFirst(k, v) && v.integral() {
+						in.vs[0], in.vs[i] = in.vs[i], in.vs[0]
+						return
+					}
+				}
+				_, hi := intRange(k)
+				in.vs = append([]lit{numLit(hi.String())}, in.vs...)
+			})
+		},
+		witness: witness{
+			setup: []string{"CREATE TABLE ti (u BIGINT UNSIGNED, KEY ku (u))", "CREATE TABLE tn (u BIGINT UNSIGNED)",
+				"INSERT INTO ti VALUES (9223372036854775808), (1)", "INSERT INTO tn VALUES (9223372036854775808), (1)"},
+			where: "u = 9223372036854775806",
+		},
+	},
+	{
+		// IN / NOT IN lists and <=> over a VARCHAR column with a case-insensitive collation:
+		// evaluated as a filter (scan side) they compare the strings binary, ignoring the column
+		// collation that =, <, BETWEEN and LIKE honour; the index ranges honour it. The two paths
+		// disagree whenever a stored value and a literal are equal under the collation but not
+		// byte-equal. (IN: same cause as C29-in-binary / C07-in-collation.)
+		id: kfCIIgnored,
+		sig: func(t *tinfo, p pred) bool {
+			hit := false
+			ciNodes(t.sh, p, func(col int, l *lit) { hit = hit || ciClash(t.pools[col], *l) })
+			return hit
+		},
+		outcome: outcome.bothOK,
+		steer: func(t *tinfo, p pred) {
+			ciNodes(t.sh, p, func(col int, l *lit) {
 				if ciClash(t.pools[col], *l) {
 					*l = strLit("zq") // equal to no stored value under any collation
 				}
@@ -681,29 +556,6 @@ var findings = []finding{
 			setup: []string{"CREATE TABLE ti (s VARCHAR(8) COLLATE utf8mb4_0900_ai_ci, KEY ks (s))", "CREATE TABLE tn (s VARCHAR(8) COLLATE utf8mb4_0900_ai_ci)",
 				"INSERT INTO ti VALUES ('A'), ('b')", "INSERT INTO tn VALUES ('A'), ('b')"},
 			where: "s IN ('a')",
-		},
-	},
-	{
-		// `(a, b) [NOT] IN ((x, y), ..)` where a row of the table has a NULL in a or b: as a
-		// filter (HashInTuple) the row value containing NULL is hashed and simply not found, so
-		// IN yields FALSE instead of NULL and NOT IN keeps the row; the index path evaluates the
-		// rewritten `NOT (a = x AND b = y)` in three-valued logic and drops it.
-		id: kfTupleNull,
-		sig: func(t *tinfo, p pred) bool {
-			hit := false
-			nullTupleIns(t, p, func(*pTupleIn) { hit = true })
-			return hit
-		},
-		outcome: outcome.bothOK,
-		steer: func(t *tinfo, p pred) {
-			// guard the row comparison with IS NOT NULL conjuncts: the guarded conjunction is FALSE for
-			// every row with a NULL component whatever the row comparison yields
-			nullTupleIns(t, p, func(x *pTupleIn) { x.guard = true })
-		},
-		witness: witness{
-			setup: []string{"CREATE TABLE ti (a TINYINT, b TINYINT, KEY kab (a, b))", "CREATE TABLE tn (a TINYINT, b TINYINT)",
-				"INSERT INTO ti VALUES (NULL, 1), (1, 1), (2, 2)", "INSERT INTO tn VALUES (NULL, 1), (1, 1), (2, 2)"},
-			where: "a IS NULL AND (a, b) NOT IN ((1, 1))",
 		},
 	},
 }
